@@ -39,3 +39,42 @@ func verifHarness_C14_routerRepeat() {
 	verifAssert(r.cachedRoutes.Len() == before, "a repeat does not add an entry")
 	verifCover("C14 repeat")
 }
+
+// The capacity that counts is the one configured when the first route is
+// registered, however the options were ordered or split over New/WithOptions;
+// and every resolved dynamic request is stored, whatever the length of its path.
+func verifHarness_C14_capacity() {
+	cfg := verifCfg()
+	n := cfg % 3
+	order := (cfg / 3) % 4
+	var r *Router
+	switch order {
+	case 0:
+		r = New(CachingWithNum(uint16(n)))
+	case 1:
+		r = New(MaxNumCaches(uint16(n)), EnableCaching)
+	case 2:
+		r = New(EnableCaching, MaxNumCaches(uint16(n)))
+	case 3:
+		r = New(EnableCaching)
+		r.WithOptions(MaxNumCaches(uint16(n)))
+	}
+	rt := r.GET("/u/{v}", verifNop)
+	long := "/u/"
+	for i := 0; i < 300; i++ {
+		long += "a"
+	}
+	bounded, stored := true, true
+	for _, p := range []string{"/u/a", "/u/b", "/u/c", long, "/u/d"} {
+		got, _, _ := r.QuickMatch("GET", p)
+		verifAssert(got != nil, "the dynamic request is resolved")
+		bounded = verifAnd(bounded, r.cachedRoutes.Len() <= n)
+		if n > 0 {
+			again, _, _ := r.QuickMatch("GET", p)
+			stored = verifAnd(stored, again != nil && again != rt && r.cachedRoutes.Has("GET"+p))
+		}
+	}
+	verifAssert(bounded, "the cache never holds more entries than the configured capacity, whatever the order of the options")
+	verifAssert(stored, "every resolved dynamic request is stored under its method and path (also a long one) and its repeat is served from the cache")
+	verifCover("C14 capacity")
+}
